@@ -290,7 +290,8 @@ func validateAsPathValueBytes(data []byte, options ...*MarshallingOption) (bool,
 
 func ValidateOpenMsg(m *BGPOpen, expectedAS uint32, myAS uint32, myId netip.Addr) (uint32, error) {
 	if m.Version != 4 {
-		return 0, NewMessageError(BGP_ERROR_OPEN_MESSAGE_ERROR, BGP_ERROR_SUB_UNSUPPORTED_VERSION_NUMBER, nil, fmt.Sprintf("unsupported version %d", m.Version))
+		// RFC 4271 6.2: Data = the largest locally supported version
+		return 0, NewMessageError(BGP_ERROR_OPEN_MESSAGE_ERROR, BGP_ERROR_SUB_UNSUPPORTED_VERSION_NUMBER, []byte{0, 4}, fmt.Sprintf("unsupported version %d", m.Version))
 	}
 
 	as := uint32(m.MyAS)
